@@ -204,6 +204,8 @@ def gen_C08(rng, tier):
             spec["start"] = {"after_steps": rng.randint(0, 80)}
         scn["procs"].append(spec)
     maybe_trace(rng, scn, 0.5)
+    if scn["cfg"]["preempt"]:
+        scn["cfg"]["preempt"] = rng.choice([12, 25, 50, 100])
     return scn
 
 
@@ -234,8 +236,23 @@ PROFILES = {
 }
 
 
+# other profiles whose scenarios a property's oracle is also sound on (diversity:
+# a quarter of each check's runs come from them)
+MIX = {
+    "C04": ["C05", "C06", "C07", "C08"],
+    "C05": ["C04", "C06", "C08"],
+    "C06": ["C04", "C05", "C07", "C08", "C09"],
+    "C08": ["C06", "C09"],
+    "C09": ["C08"],
+}
+
+
 def generate(prop, seed, tier="quick"):
     rng = random.Random(("wl", prop, seed).__repr__())
-    scn = PROFILES[prop](rng, tier)
+    profile = prop
+    if prop in MIX and rng.random() < 0.25:
+        profile = rng.choice(MIX[prop])
+    scn = PROFILES[profile](rng, tier)
     scn["prop"] = prop
+    scn["profile"] = profile
     return scn
